@@ -33,9 +33,11 @@ def _sig(f):
 
 
 def evaluate(chk, entries, cfg, name):
-  obs = geno.observe_parallel('pgverif.geno_views:observe_c12', entries, chk.seed, cfg,
+  with geno.phase(chk, 'observe_real_code'):
+    obs = geno.observe_parallel('pgverif.geno_views:observe_c12', entries, chk.seed, cfg,
                               weight=lambda e: 1 + len(e['trees']) + (cfg['chains'] if e['size'] != -1 else 0))
-  fails, results = geno.laws_parallel('GenoViewsLaws', 'C12_laws.cfg', obs, cfg['law_chunks'], name,
+  with geno.phase(chk, 'tlc_laws'):
+    fails, results = geno.laws_parallel('GenoViewsLaws', 'C12_laws.cfg', obs, cfg['law_chunks'], name,
                                       weight=lambda o: 1 + len(o['dnas']) * 5 + len(o['chains']))
   for r in results:
     chk.add_tlc(r, count_states=False)
